@@ -564,6 +564,53 @@ def gen_iter_cases(ctx, quick):
     return cases
 
 
+# ------------------------------------------------------------------------------------------
+# the SAME object offered again: a rejected argument must be rejected the same way every time
+
+TWICE_VALUES = [
+    # unhashable tuples nesting vec / map / instance / closure / fiber / iterator at depth 1-3, and hashable ones
+    "([1, 2], 3)", "([],)", "(1, ([],))", "(1, (2, ({},)))", "(PC.new(),)", "((|| 1),)", "(1, (2, (3, [4])))", "(1, ({1: 2}, 3), 4)",
+    "(Fiber.new(|| 1),)", "([1].iter(),)", "(1, (nil, (true, ([1].len,))))", "((1, 2), (3, (4, 5)))", "()", "(1, \"a\", nil)",
+    # finished / suspended / new fibers
+    "Fiber.new(|| 1); x.call()", "Fiber.new(|| { Fiber.yield(1); return 2; }); x.call()", "Fiber.new(|q| q)",
+    # exhausted / stale iterators
+    "[].iter(); x.next()", "\"\".iter(); x.next()", "(1,).iter(); x.next(); x.next()", "(0..1).iter(); x.next(); x.next()",
+    "nil; var xv = [1, 2, 3]; x = xv.iter(); x.next(); x.next(); x.next(); xv.pop(); xv.pop()",
+    # indices out of range / not integral
+    "7", "-9", "0.5", "(0/0)", "(1/0)", "-9223372036854775808", "5..9", "-7..-1",
+    # wrong kinds
+    "nil", "\"s\"", "\"\"", "[1]", "[]", "{}", "{1: [2]}", "PC", "PC.new()", "|| 1", "|a, b| a", "[1].len", "PC.new().m", "0..3", "pm", "type", "true",
+]
+TWICE_USES = [
+    "m.insert(x, 1)", "m.get(x)", "m.has_key(x)", "m.remove(x)", "var m2 = {x: 1}", "var m3 = {1: 2, x: 3, 4: 5}", "m.get((x,))", "var m4 = {(x, 2): 1}",
+    "m.insert((1, (x,)), 2)", "[1, 2, 3][x]", "\"abc\"[x]", "(1, 2)[x]", "v[x] = 1", "x[0]", "x[0] = 1", "x[x]", "print(x == x)", "print(x == [1])", "print(x)",
+    "print(\"<${x}>\")", "String.from(x)", "for q in x { print(q); }", "x.next()", "x.call()", "x.call(1)", "x()", "x(1, 2)", "x.len()", "x.iter()",
+    "Fiber.new(x)", "nil.derives(x)", "x.derives(x)", "var r1 = 0..x", "var r2 = x..2", "print(-x)", "print(x + 1)", "print(x < x)", "String.from_utf8(x)",
+    "String.from_code_points(x)", "\"abc\".find(x, x)", "\"abc\".find(\"b\", x)", "\"a\".split(x)", "\"abc\".char_byte_index(x)", "type(x)", "throw x",
+    "x.foo = 1", "x.foo", "x.has_finished()", "x.pop()", "v.push(x); v.pop()", "Error.new(x).context", "x.map(|q| q).collect()", "x.has_key(x)",
+]
+
+
+def gen_twice_cases(ctx, quick):
+    """every (offending value, use A) pair: A three times in a row on the SAME variable, a different use B twice, print, A once more, B once more;
+    each use in its own try/catch.  Oracle: no panic / crash / UAF (a second offer of a once-rejected object must be rejected again)."""
+    rng = ctx.rng
+    cases = []
+
+    def wrap(u, k):
+        return 'try { %s print("ok%d"); } catch e%d { print("err%d"); }' % (u if u.endswith("; } }") or u.endswith("); }") else u + ";", k, k, k)
+    for val in TWICE_VALUES:
+        for a in TWICE_USES:
+            for _ in range(1 if quick else 3):
+                b = rng.choice([u for u in TWICE_USES if u != a])
+                c = rng.choice(TWICE_USES)
+                seq = [a, a, a, b, b, "print(x)", a, b, c, a]
+                src = ["var x = %s;" % val, "var m = {1: 2, \"k\": 3};", "var v = [1, 2, 3];"]
+                src += [wrap(u, k) for k, u in enumerate(seq)]
+                cases.append(("\n".join(src), None))
+    return cases
+
+
 def run_iter_cases(ctx, binary, cases, what):
     """returns (#agree, #differ, failures[(source, description)], first differences)"""
     group = 24
@@ -1286,6 +1333,16 @@ def run(ctx):
     hist["iter:fail"] = len(it_fails)
     log('[C02] iterator-misuse cases: %d in %.1fs' % (len(icases), time.time() - t0))
     t0 = time.time()
+    # ---- the same (rejected) object offered again and again ----
+    tcases = gen_twice_cases(ctx, quick)
+    tw_agree, _tw_differ, tw_fails, _ = run_iter_cases(ctx, binary, tcases, "debug same-object")
+    for s1, bad in tw_fails[:3]:
+        ctx.violation("the same object offered repeatedly to built-ins / VM operations that reject it does not end in a value or a reported error: %s" % bad,
+                      input=s1, expected="Ok or Err(Error)", actual=bad)
+    hist["twice:ok"] = tw_agree
+    hist["twice:fail"] = len(tw_fails)
+    log('[C02] same-object cases: %d in %.1fs' % (len(tcases), time.time() - t0))
+    t0 = time.time()
     # ---- (b) ill-typed programs: oracle impl == S ----
     nprog = 400 if quick else 3000
     gen = ProgGen(rng)
@@ -1395,8 +1452,8 @@ def run(ctx):
     log('[C02] site check: %d functions in %.1fs' % (fns, time.time() - t0))
     ncalls = len(probes) + len(dprobes)
     ctx.cov.update({
-        "operator_probes": len(ops), "iterator_misuse_cases": len(icases),
-        "evaluations": ncalls + len(ops) + len(icases) + len(lts) + len(progs) * len(builds) + len(KNOWN) + (len(probes) if not quick else 0),
+        "operator_probes": len(ops), "iterator_misuse_cases": len(icases), "same_object_cases": len(tcases),
+        "evaluations": ncalls + len(ops) + len(icases) + len(tcases) + len(lts) + len(progs) * len(builds) + len(KNOWN) + (len(probes) if not quick else 0),
         "distinct_nontrivial": len(nontrivial),
         "rule": "native calls: distinct (native, fiber context, receiver kind, argument-kind vector) combinations whose outcome is NOT an arity error "
                 "(the call got past check_num_args / the at-most-1 test); kinds as in NativesModel.akind (number class, vec length, tuple hashability, "
